@@ -320,6 +320,51 @@ def rule_fileref(ctx, py):
                         ctx.check(okk, R, call, f._qual, pyfe.src(call)[:80], "base_path passed through",
                                   "child dictionary read without the base path: its file references resolve "
                                   "against the current directory")
+    # whoever parses a JSON file and hands the dictionary to a *_from_dict reader passes the directory of THAT file as
+    # base_path (not the directory of the file that referred to it, not the current one)
+    for f in py.all_funcs():
+        loads = [st for st in ast.walk(f) if isinstance(st, ast.Assign) and len(st.targets) == 1 and
+                 isinstance(st.targets[0], ast.Name) and isinstance(st.value, ast.Call) and
+                 pyfe.call_name(st.value) in ("json.load", "load")]
+        for st in loads:
+            dvar = st.targets[0].id
+            fh = st.value.args[0] if st.value.args else None
+            opened = None
+            if isinstance(fh, ast.Name):
+                for x in ast.walk(f):
+                    if isinstance(x, ast.Assign) and pyfe.src(x.targets[0]) == fh.id and isinstance(x.value, ast.Call) and \
+                            pyfe.call_name(x.value) == "open" and x.value.args:
+                        opened = x.value.args[0]
+                    if isinstance(x, ast.With):
+                        for it in x.items:
+                            if it.optional_vars is not None and pyfe.src(it.optional_vars) == fh.id and \
+                                    isinstance(it.context_expr, ast.Call) and pyfe.call_name(it.context_expr) == "open" and \
+                                    it.context_expr.args:
+                                opened = it.context_expr.args[0]
+            elif isinstance(fh, ast.Call) and pyfe.call_name(fh) == "open" and fh.args:
+                opened = fh.args[0]
+            if opened is None:
+                continue
+            want = "filepath.get_base_path(%s)" % pyfe.src(opened)
+            for call in pyfe.calls_in(f):
+                nm = pyfe.call_name(call)
+                if not nm.endswith("_from_dict") or not call.args or pyfe.src(call.args[0]) != dvar or call.lineno < st.lineno:
+                    continue
+                tf = [t for t in py.resolve_call(f, call) if isinstance(t, ast.FunctionDef)]
+                if not tf or "base_path" not in pyfe.params(tf[0]):
+                    continue
+                b = pyfe.arg(call, pyfe.params(tf[0]).index("base_path"), "base_path")
+                cands = [pyfe.src(b)] if b is not None else []
+                if isinstance(b, ast.Name):
+                    cands += [pyfe.src(x.value) for x in ast.walk(f) if isinstance(x, ast.Assign) and
+                              pyfe.src(x.targets[0]) == b.id]
+                okk = any(c_.replace(" ", "") in (want.replace(" ", ""), want.replace(" ", "").replace("filepath.", ""))
+                          for c_ in cands)
+                n += 1
+                ctx.check(okk, R, call, f._qual, pyfe.src(call)[:80], "the dictionary read from %s is interpreted relative to "
+                          "that file's directory" % pyfe.src(opened)[:40], "the dictionary parsed from the file `%s` is read with "
+                          "base_path `%s`, not the directory of that file: the files it names (environment maps, arrays, nested "
+                          "JSON) are looked up in another directory" % (pyfe.src(opened)[:50], cands[0] if cands else "(none)"))
     # the data file name written into a trajectory file is relative to that file
     f = py.fn("rdoutput.save_rdtrajectory")
     vals = []
@@ -526,6 +571,12 @@ def run(ctx):
     from . import c04
     c04.rule_inherit(ctx, py, "C12.INHERIT")    # a referenced file inherits the units system of the level that names it
     rule_dispatch(ctx, py)
+    # shared clause: a reaction is serialised as its equation text; reading that text back is C19's parser (tokenisation, whole
+    # tokens as labels, repeats summed) and printer
+    from ..core import borrow
+    from . import c19
+    borrow(ctx, "C12", c19.rule_accum, py)
+    borrow(ctx, "C12", c19.rule_print, py)
     ctx.analysed["package"] = {"modules": len(py.mods), "functions": py.nfuncs}
     from .. import lints
     lints.run(ctx, "C12", ctx.py, ["filepath", "rdoutput", "text_array_rw", "rdscript", "rdsystem", "rdnetwork", "rdspace", "rdgridspace", "rdgraphspace", "value_processing"], truth_floor=12)
